@@ -12,11 +12,11 @@ Local Open Scope N_scope.
    - objects that exist in the destination keep their value (only new objects are allocated);
    - to_copy only grows, and every new entry is mapped to a local object that was absent or null in c. *)
 Definition pg_cR (c c' : pg_cst) : Prop :=
-  (forall og l, pg_omap_find (c_omap c) og = Some l -> pg_omap_find (c_omap c') og = Some l) /\
-  (pd_all (c_src c) <> [] -> c_src c' = c_src c) /\
-  (forall j, pg_lookup (c_dst c) j <> None -> pg_lookup (c_dst c') j = pg_lookup (c_dst c) j) /\
-  (exists more, c_tocopy c' = more ++ c_tocopy c /\
-     forall og, In og more -> exists l, pg_omap_find (c_omap c') og = Some l /\ pg_is_null (c_dst c) (PvRef l) = true).
+  (forall og l, pg_omap_find (pgc_omap c) og = Some l -> pg_omap_find (pgc_omap c') og = Some l) /\
+  (pd_all (pgc_src c) <> [] -> pgc_src c' = pgc_src c) /\
+  (forall j, pg_lookup (pgc_dst c) j <> None -> pg_lookup (pgc_dst c') j = pg_lookup (pgc_dst c) j) /\
+  (exists more, pgc_tocopy c' = more ++ pgc_tocopy c /\
+     forall og, In og more -> exists l, pg_omap_find (pgc_omap c') og = Some l /\ pg_is_null (pgc_dst c) (PvRef l) = true).
 
 Lemma pg_cR_refl : forall c, pg_cR c c.
 Proof.
@@ -36,14 +36,14 @@ Proof.
   - exists (more2 ++ more1). split; [rewrite T2, T1, app_assoc; reflexivity|].
     intros og Hin. apply in_app_iff in Hin. destruct Hin as [Hin|Hin].
     + destruct (N2 og Hin) as (l & Hl & Hn). exists l. split; [exact Hl|].
-      destruct (pg_lookup (c_dst c1) l) eqn:E.
+      destruct (pg_lookup (pgc_dst c1) l) eqn:E.
       * rewrite <- Hn. symmetry. apply pg_is_null_ref_lookup. apply D1. congruence.
       * unfold pg_is_null. rewrite E. reflexivity.
     + destruct (N1 og Hin) as (l & Hl & Hn). exists l. split; [apply M2, Hl | exact Hn].
 Qed.
 
 (* states that differ only in visiting / err are related *)
-Lemma pg_cR_core : forall c c', c_src c' = c_src c -> c_dst c' = c_dst c -> c_omap c' = c_omap c -> c_tocopy c' = c_tocopy c -> pg_cR c c'.
+Lemma pg_cR_core : forall c c', pgc_src c' = pgc_src c -> pgc_dst c' = pgc_dst c -> pgc_omap c' = pgc_omap c -> pgc_tocopy c' = pgc_tocopy c -> pg_cR c c'.
 Proof.
   intros c c' Hs Hd Ho Ht. repeat split.
   - intros og l H. rewrite Ho. exact H.
@@ -58,8 +58,8 @@ Proof. intros p H. unfold pg_all. destruct (pd_all p); [congruence|reflexivity].
 Lemma pg_cR_type_is : forall c h t, pg_cR c (fst (pg_src_type_is c h t)).
 Proof.
   intros c h t. unfold pg_src_type_is. destruct h; try apply pg_cR_refl.
-  destruct (pg_all (c_src c)) as [src e] eqn:E.
-  assert (pd_all (c_src c) <> [] -> src = c_src c) as Hs.
+  destruct (pg_all (pgc_src c)) as [src e] eqn:E.
+  assert (pd_all (pgc_src c) <> [] -> src = pgc_src c) as Hs.
   { intros H. rewrite pg_all_filled in E by exact H. inversion E. reflexivity. }
   destruct e; cbn [fst]; (split; [intros og l H; exact H | split; [exact Hs | split; [intros j _; reflexivity | exists []; split; [reflexivity|intros og []]]]]).
 Qed.
@@ -70,55 +70,55 @@ Proof. reflexivity. Qed.
 Lemma pg_cR_head : forall h top c, pg_cR c (fst (pg_reserve_head h top c)).
 Proof.
   intros h top c. unfold pg_reserve_head. destruct h as [| | |og| |]; try apply pg_cR_refl.
-  destruct (pg_memN og (c_visiting c)); [apply pg_cR_refl|].
-  cbn [c_omap c_src c_dst c_visiting c_tocopy c_err].
-  destruct (pg_omap_find (c_omap c) og) as [l|] eqn:Eo.
+  destruct (pg_memN og (pgc_visiting c)); [apply pg_cR_refl|].
+  cbn [pgc_omap pgc_src pgc_dst pgc_visiting pgc_tocopy pgc_err].
+  destruct (pg_omap_find (pgc_omap c) og) as [l|] eqn:Eo.
   - (* already mapped *)
-    set (c1 := mkPgCst (c_src c) (c_dst c) (c_omap c) (og :: c_visiting c) (c_tocopy c) (c_err c)).
+    set (c1 := mkPgCst (pgc_src c) (pgc_dst c) (pgc_omap c) (og :: pgc_visiting c) (pgc_tocopy c) (pgc_err c)).
     assert (R1 : pg_cR c c1) by (apply pg_cR_core; reflexivity).
     destruct top.
-    + pose proof (pg_cR_type_is c1 (PvRef og) k_Page) as R2.
-      destruct (pg_src_type_is c1 (PvRef og) k_Page) as [c2 isp] eqn:E2. cbn [fst] in R2.
+    + pose proof (pg_cR_type_is c1 (PvRef og) pgk_Page) as R2.
+      destruct (pg_src_type_is c1 (PvRef og) pgk_Page) as [c2 isp] eqn:E2. cbn [fst] in R2.
       pose proof (pg_cR_trans _ _ _ R1 R2) as R12.
-      cbn [andb]. destruct (isp && pg_is_null (c_dst c2) (PvRef l)) eqn:Ec; cbn [fst].
+      cbn [andb]. destruct (isp && pg_is_null (pgc_dst c2) (PvRef l)) eqn:Ec; cbn [fst].
       * apply andb_true_iff in Ec. destruct Ec as [_ Hn].
         destruct R12 as (M & S & D & more & T & NN).
         split; [exact M|split; [exact S|split; [exact D|]]].
-        exists (og :: more). cbn [c_tocopy]. split; [rewrite T; reflexivity|].
+        exists (og :: more). cbn [pgc_tocopy]. split; [rewrite T; reflexivity|].
         intros x [<-|Hx]; [|apply NN, Hx].
-        exists l. cbn [c_omap]. split; [apply M, Eo|].
-        destruct (pg_lookup (c_dst c) l) eqn:El.
+        exists l. cbn [pgc_omap]. split; [apply M, Eo|].
+        destruct (pg_lookup (pgc_dst c) l) eqn:El.
         -- rewrite <- Hn. symmetry. apply pg_is_null_ref_lookup, D. congruence.
         -- unfold pg_is_null. rewrite El. reflexivity.
       * eapply pg_cR_trans; [exact R12|]. apply pg_cR_core; reflexivity.
     + cbn [andb fst]. eapply pg_cR_trans; [exact R1|]. apply pg_cR_core; reflexivity.
   - (* new reservation *)
-    set (cell := if pg_is_stream (pd_store (c_src c)) (PvRef og) then PcStream [] [] 0 else PcObj PvNull).
-    assert ((if pg_is_stream (pd_store (c_src c)) (PvRef og) then pg_alloc (c_dst c) (PcStream [] [] 0) else pg_alloc (c_dst c) (PcObj PvNull))
-            = pg_alloc (c_dst c) cell) as -> by (unfold cell; destruct (pg_is_stream _ _); reflexivity).
-    set (ni := pg_next_id (c_dst c)).
-    change (pg_alloc (c_dst c) cell) with ((ni, cell) :: c_dst c, ni). cbv iota beta.
-    set (c1 := mkPgCst (c_src c) ((ni, cell) :: c_dst c) ((og, ni) :: c_omap c) (og :: c_visiting c) (c_tocopy c) (c_err c)).
-    assert (Hfresh : pg_lookup (c_dst c) ni = None) by apply pg_next_id_fresh.
+    set (cell := if pg_is_stream (pd_store (pgc_src c)) (PvRef og) then PcStream [] [] 0 else PcObj PvNull).
+    assert ((if pg_is_stream (pd_store (pgc_src c)) (PvRef og) then pg_alloc (pgc_dst c) (PcStream [] [] 0) else pg_alloc (pgc_dst c) (PcObj PvNull))
+            = pg_alloc (pgc_dst c) cell) as -> by (unfold cell; destruct (pg_is_stream _ _); reflexivity).
+    set (ni := pg_next_id (pgc_dst c)).
+    change (pg_alloc (pgc_dst c) cell) with ((ni, cell) :: pgc_dst c, ni). cbv iota beta.
+    set (c1 := mkPgCst (pgc_src c) ((ni, cell) :: pgc_dst c) ((og, ni) :: pgc_omap c) (og :: pgc_visiting c) (pgc_tocopy c) (pgc_err c)).
+    assert (Hfresh : pg_lookup (pgc_dst c) ni = None) by apply pg_next_id_fresh.
     assert (R1 : pg_cR c c1).
     { repeat split.
-      - intros x l H. cbn [c1 c_omap]. rewrite pg_omap_find_cons. destruct (x =? og) eqn:E; [|exact H].
+      - intros x l H. cbn [c1 pgc_omap]. rewrite pg_omap_find_cons. destruct (x =? og) eqn:E; [|exact H].
         apply N.eqb_eq in E. subst x. congruence.
-      - intros j Hj. cbn [c1 c_dst pg_lookup]. destruct (j =? ni) eqn:E; [|reflexivity].
+      - intros j Hj. cbn [c1 pgc_dst pg_lookup]. destruct (j =? ni) eqn:E; [|reflexivity].
         apply N.eqb_eq in E. subst j. congruence.
       - exists []. split; [reflexivity|]. intros x []. }
     assert (Hadd : forall c2, pg_cR c1 c2 ->
-       pg_cR c (mkPgCst (c_src c2) (c_dst c2) (c_omap c2) (c_visiting c2) (og :: c_tocopy c2) (c_err c2))).
+       pg_cR c (mkPgCst (pgc_src c2) (pgc_dst c2) (pgc_omap c2) (pgc_visiting c2) (og :: pgc_tocopy c2) (pgc_err c2))).
     { intros c2 R2. destruct (pg_cR_trans _ _ _ R1 R2) as (M & S & D & more & T & NN).
       split; [exact M|split; [exact S|split; [exact D|]]].
-      exists (og :: more). cbn [c_tocopy]. split; [rewrite T; reflexivity|].
-      intros x [<-|Hx]; [|apply NN, Hx]. exists ni. cbn [c_omap]. split.
-      - destruct R2 as (M2 & _). apply M2. cbn [c1 c_omap]. rewrite pg_omap_find_cons, N.eqb_refl. reflexivity.
+      exists (og :: more). cbn [pgc_tocopy]. split; [rewrite T; reflexivity|].
+      intros x [<-|Hx]; [|apply NN, Hx]. exists ni. cbn [pgc_omap]. split.
+      - destruct R2 as (M2 & _). apply M2. cbn [c1 pgc_omap]. rewrite pg_omap_find_cons, N.eqb_refl. reflexivity.
       - unfold pg_is_null. rewrite Hfresh. reflexivity. }
     destruct top.
     + cbn [negb andb fst]. apply (Hadd c1), pg_cR_refl.
-    + pose proof (pg_cR_type_is c1 (PvRef og) k_Page) as R2.
-      destruct (pg_src_type_is c1 (PvRef og) k_Page) as [c2 isp] eqn:E2. cbn [fst] in R2.
+    + pose proof (pg_cR_type_is c1 (PvRef og) pgk_Page) as R2.
+      destruct (pg_src_type_is c1 (PvRef og) pgk_Page) as [c2 isp] eqn:E2. cbn [fst] in R2.
       cbn [negb andb]. destruct isp; cbn [fst].
       * eapply pg_cR_trans; [exact R1|]. eapply pg_cR_trans; [exact R2|]. apply pg_cR_core; reflexivity.
       * apply Hadd, R2.
@@ -134,12 +134,12 @@ Qed.
 Lemma pg_cR_kids : forall rec h c, (forall x c, pg_cR c (rec x c)) -> pg_cR c (pg_reserve_kids rec h c).
 Proof.
   intros rec h c Hrec. unfold pg_reserve_kids.
-  assert (Hd : forall d c0, pg_cR c0 (fold_left (fun c1 (kv : pg_key * pg_val) => if pg_is_null (pd_store (c_src c1)) (snd kv) then c1 else rec (snd kv) c1) d c0)).
+  assert (Hd : forall d c0, pg_cR c0 (fold_left (fun c1 (kv : pg_key * pg_val) => if pg_is_null (pd_store (pgc_src c1)) (snd kv) then c1 else rec (snd kv) c1) d c0)).
   { intros d c0. apply pg_cR_fold. intros c1 kv. destruct (pg_is_null _ _); [apply pg_cR_refl | apply Hrec]. }
   assert (Ha : forall l c0, pg_cR c0 (fold_left (fun c1 x => rec x c1) l c0)).
   { intros l c0. apply pg_cR_fold. intros c1 x. apply Hrec. }
   destruct h as [| | |og|l|d]; try apply pg_cR_refl; [|apply Ha|apply Hd].
-  destruct (pg_lookup (pd_store (c_src c)) og) as [[v|d x k]|]; try apply pg_cR_refl; [|apply Hd].
+  destruct (pg_lookup (pd_store (pgc_src c)) og) as [[v|d x k]|]; try apply pg_cR_refl; [|apply Hd].
   destruct v; try apply pg_cR_refl; [apply Ha|apply Hd].
 Qed.
 
@@ -147,17 +147,17 @@ Lemma pg_cR_reserve : forall fuel h top c, pg_cR c (pg_reserve fuel h top c).
 Proof.
   induction fuel as [|f IH]; intros h top c; cbn [pg_reserve].
   - apply pg_cR_core; reflexivity.
-  - destruct (c_err c); [apply pg_cR_refl|].
-    pose proof (pg_cR_type_is c h k_Pages) as R1.
-    destruct (pg_src_type_is c h k_Pages) as [c1 isp]. cbn [fst] in R1.
-    destruct (c_err c1); [exact R1|]. destruct isp; [exact R1|].
+  - destruct (pgc_err c); [apply pg_cR_refl|].
+    pose proof (pg_cR_type_is c h pgk_Pages) as R1.
+    destruct (pg_src_type_is c h pgk_Pages) as [c1 isp]. cbn [fst] in R1.
+    destruct (pgc_err c1); [exact R1|]. destruct isp; [exact R1|].
     pose proof (pg_cR_head h top c1) as R2.
     destruct (pg_reserve_head h top c1) as [c2 go]. cbn [fst] in R2.
     pose proof (pg_cR_trans _ _ _ R1 R2) as R12.
-    destruct (c_err c2); [exact R12|]. destruct go; cbn [negb]; [|exact R12].
+    destruct (pgc_err c2); [exact R12|]. destruct go; cbn [negb]; [|exact R12].
     pose proof (pg_cR_kids (fun x c0 => pg_reserve f x false c0) h c2 (fun x c0 => IH x false c0)) as R3.
     pose proof (pg_cR_trans _ _ _ R12 R3) as R123.
-    destruct (c_err (pg_reserve_kids (fun x c0 => pg_reserve f x false c0) h c2)); [exact R123|].
+    destruct (pgc_err (pg_reserve_kids (fun x c0 => pg_reserve f x false c0) h c2)); [exact R123|].
     eapply pg_cR_trans; [exact R123|]. unfold pg_reserve_done. destruct h; try apply pg_cR_refl. apply pg_cR_core; reflexivity.
 Qed.
 
@@ -166,18 +166,18 @@ Local Opaque pg_reserve.
 Definition pg_c0 (src dst : pg_doc) : pg_cst := mkPgCst src (pd_store dst) (pd_omap dst) [] [] None.
 Definition pg_cres (src dst : pg_doc) (fid : N) : pg_cst := pg_reserve 200 (PvRef fid) true (pg_c0 src dst).
 
-Lemma pg_copied_src : forall src dst fid, fst (fst (fst (pg_copied src dst fid))) = c_src (pg_cres src dst fid).
+Lemma pg_copied_src : forall src dst fid, fst (fst (fst (pg_copied src dst fid))) = pgc_src (pg_cres src dst fid).
 Proof.
   intros. unfold pg_copied. fold (pg_c0 src dst). fold (pg_cres src dst fid).
-  destruct (c_err (pg_cres src dst fid)); [reflexivity|].
+  destruct (pgc_err (pg_cres src dst fid)); [reflexivity|].
   destruct (fold_left _ _ _) as [[ds reg] e]. destruct e; [reflexivity|].
   destruct (pg_omap_find _ _); reflexivity.
 Qed.
 
-Lemma pg_copied_omap : forall src dst fid, pd_omap (snd (fst (fst (pg_copied src dst fid)))) = c_omap (pg_cres src dst fid).
+Lemma pg_copied_omap : forall src dst fid, pd_omap (snd (fst (fst (pg_copied src dst fid)))) = pgc_omap (pg_cres src dst fid).
 Proof.
   intros. unfold pg_copied. fold (pg_c0 src dst). fold (pg_cres src dst fid).
-  destruct (c_err (pg_cres src dst fid)); [reflexivity|].
+  destruct (pgc_err (pg_cres src dst fid)); [reflexivity|].
   destruct (fold_left _ _ _) as [[ds reg] e]. destruct e; [reflexivity|].
   destruct (pg_omap_find _ _); reflexivity.
 Qed.
@@ -207,9 +207,9 @@ Proof.
   destruct (pg_copied src dst fid) as [[[src' dst'] e] r] eqn:E. cbn [fst snd] in Ho.
   assert (Hrec : forall l, e = None -> r = PvRef l -> pg_omap_find (pd_omap dst') fid = Some l).
   { intros l -> ->. rewrite Ho. unfold pg_copied in E. fold (pg_c0 src dst) in E. fold (pg_cres src dst fid) in E.
-    destruct (c_err (pg_cres src dst fid)); [inversion E|].
+    destruct (pgc_err (pg_cres src dst fid)); [inversion E|].
     destruct (fold_left _ _ _) as [[ds reg] e0]. destruct e0; [inversion E|].
-    destruct (pg_omap_find (c_omap (pg_cres src dst fid)) fid); inversion E. reflexivity. }
+    destruct (pg_omap_find (pgc_omap (pg_cres src dst fid)) fid); inversion E. reflexivity. }
   split; [|split; [exact Hrec|]].
   - intros og l H. rewrite Ho. apply M. exact H.
   - intros l He Hr. specialize (Hrec l He Hr).
@@ -217,9 +217,9 @@ Proof.
     destruct (pg_cR_reserve 200 (PvRef fid) true (pg_c0 src' dst')) as (M2 & _).
     destruct (pg_copied src' dst' fid) as [[[src2 dst2] e2] r2] eqn:E2. cbn [fst snd] in Ho2.
     intros ->. unfold pg_copied in E2. fold (pg_c0 src' dst') in E2. fold (pg_cres src' dst' fid) in E2.
-    destruct (c_err (pg_cres src' dst' fid)); [inversion E2|].
+    destruct (pgc_err (pg_cres src' dst' fid)); [inversion E2|].
     destruct (fold_left _ _ _) as [[ds reg] e0]. destruct e0; [inversion E2|].
-    assert (pg_omap_find (c_omap (pg_cres src' dst' fid)) fid = Some l) as Hf by (apply M2; exact Hrec).
+    assert (pg_omap_find (pgc_omap (pg_cres src' dst' fid)) fid = Some l) as Hf by (apply M2; exact Hrec).
     rewrite Hf in E2. inversion E2. reflexivity.
 Qed.
 
@@ -231,87 +231,87 @@ Lemma copy_frame_lemma : forall src dst fid j cell,
 Proof.
   intros src dst fid j cell Hj Hnn.
   destruct (pg_cR_reserve 200 (PvRef fid) true (pg_c0 src dst)) as (_ & _ & D & more & T & NN).
-  fold (pg_cres src dst fid) in *. cbn [pg_c0 c_dst c_tocopy] in *. rewrite app_nil_r in T.
-  assert (Hc : pg_lookup (c_dst (pg_cres src dst fid)) j = Some cell) by (rewrite D; [exact Hj | congruence]).
+  fold (pg_cres src dst fid) in *. cbn [pg_c0 pgc_dst pgc_tocopy] in *. rewrite app_nil_r in T.
+  assert (Hc : pg_lookup (pgc_dst (pg_cres src dst fid)) j = Some cell) by (rewrite D; [exact Hj | congruence]).
   unfold pg_copied. fold (pg_c0 src dst). fold (pg_cres src dst fid).
-  destruct (c_err (pg_cres src dst fid)); [exact Hc|].
+  destruct (pgc_err (pg_cres src dst fid)); [exact Hc|].
   set (c := pg_cres src dst fid) in *.
   (* the replacement loop writes only to the local objects of to_copy, which were absent or null *)
   assert (Hfold : forall l0 ds reg e,
             (forall og, In og l0 -> In og more) -> pg_lookup ds j = Some cell ->
-            pg_lookup (fst (fst (fold_left (pg_replace_step (c_src c) (c_omap c)) l0 (ds, reg, e)))) j = Some cell).
+            pg_lookup (fst (fst (fold_left (pg_replace_step (pgc_src c) (pgc_omap c)) l0 (ds, reg, e)))) j = Some cell).
   { induction l0 as [|og t IH]; intros ds reg e Hin Hds; [exact Hds|].
     cbn [fold_left]. unfold pg_replace_step at 2. destruct e; [apply IH; [intros x Hx; apply Hin; right; exact Hx | exact Hds]|].
     destruct (NN og (Hin og (or_introl eq_refl))) as (l & Hl & Hnull). rewrite Hl.
     assert (l <> j) as Hlj by (intros ->; congruence).
-    destruct (pg_lookup (pd_store (c_src c)) og) as [[v|d data k]|].
+    destruct (pg_lookup (pd_store (pgc_src c)) og) as [[v|d data k]|].
     - destruct (pg_is_null ds (PvRef l)); (apply IH; [intros x Hx; apply Hin; right; exact Hx|]); [|exact Hds].
       rewrite pg_lookup_supd. destruct (j =? l) eqn:E; [apply N.eqb_eq in E; congruence | exact Hds].
     - apply IH; [intros x Hx; apply Hin; right; exact Hx|].
       rewrite pg_lookup_supd. destruct (j =? l) eqn:E; [apply N.eqb_eq in E; congruence | exact Hds].
     - apply IH; [intros x Hx; apply Hin; right; exact Hx | exact Hds]. }
-  specialize (Hfold (rev' (c_tocopy c)) (c_dst c) (pd_reg dst) None).
-  assert (forall og, In og (rev' (c_tocopy c)) -> In og more) as Hin.
+  specialize (Hfold (rev' (pgc_tocopy c)) (pgc_dst c) (pd_reg dst) None).
+  assert (forall og, In og (rev' (pgc_tocopy c)) -> In og more) as Hin.
   { intros og H. rewrite rev'_rev in H. apply in_rev in H. rewrite T in H. exact H. }
   specialize (Hfold Hin Hc).
-  destruct (fold_left _ (rev' (c_tocopy c)) (c_dst c, pd_reg dst, None)) as [[ds reg] e]. cbn [fst] in Hfold.
-  destruct e; [exact Hfold|]. destruct (pg_omap_find (c_omap c) fid); exact Hfold.
+  destruct (fold_left _ (rev' (pgc_tocopy c)) (pgc_dst c, pd_reg dst, None)) as [[ds reg] e]. cbn [fst] in Hfold.
+  destruct e; [exact Hfold|]. destruct (pg_omap_find (pgc_omap c) fid); exact Hfold.
 Qed.
 
 (* ------------------------------------------------------------------ injectivity of the object map, to_copy without duplicates *)
 (* well-formedness of the copier state: mapped local objects exist, the map is injective, everything on to_copy is
    mapped, to_copy has no duplicates *)
 Definition pg_cW (c : pg_cst) : Prop :=
-  (forall og l, pg_omap_find (c_omap c) og = Some l -> pg_lookup (c_dst c) l <> None) /\
-  (forall og og' l, pg_omap_find (c_omap c) og = Some l -> pg_omap_find (c_omap c) og' = Some l -> og = og') /\
-  (forall og, In og (c_tocopy c) -> pg_omap_find (c_omap c) og <> None) /\
-  NoDup (c_tocopy c).
+  (forall og l, pg_omap_find (pgc_omap c) og = Some l -> pg_lookup (pgc_dst c) l <> None) /\
+  (forall og og' l, pg_omap_find (pgc_omap c) og = Some l -> pg_omap_find (pgc_omap c) og' = Some l -> og = og') /\
+  (forall og, In og (pgc_tocopy c) -> pg_omap_find (pgc_omap c) og <> None) /\
+  NoDup (pgc_tocopy c).
 
-Lemma pg_cW_eq : forall c c', c_dst c' = c_dst c -> c_omap c' = c_omap c -> c_tocopy c' = c_tocopy c -> pg_cW c -> pg_cW c'.
+Lemma pg_cW_eq : forall c c', pgc_dst c' = pgc_dst c -> pgc_omap c' = pgc_omap c -> pgc_tocopy c' = pgc_tocopy c -> pg_cW c -> pg_cW c'.
 Proof. intros c c' Hd Ho Ht (A & B & C & D). unfold pg_cW. rewrite Hd, Ho, Ht. repeat split; assumption. Qed.
 
 Lemma pg_type_is_fields : forall c h t,
-  c_dst (fst (pg_src_type_is c h t)) = c_dst c /\ c_omap (fst (pg_src_type_is c h t)) = c_omap c /\
-  c_tocopy (fst (pg_src_type_is c h t)) = c_tocopy c /\ c_visiting (fst (pg_src_type_is c h t)) = c_visiting c.
+  pgc_dst (fst (pg_src_type_is c h t)) = pgc_dst c /\ pgc_omap (fst (pg_src_type_is c h t)) = pgc_omap c /\
+  pgc_tocopy (fst (pg_src_type_is c h t)) = pgc_tocopy c /\ pgc_visiting (fst (pg_src_type_is c h t)) = pgc_visiting c.
 Proof.
   intros c h t. unfold pg_src_type_is. destruct h; try (repeat split; reflexivity).
-  destruct (pg_all (c_src c)) as [src e]. destruct e; repeat split; reflexivity.
+  destruct (pg_all (pgc_src c)) as [src e]. destruct e; repeat split; reflexivity.
 Qed.
 
 Lemma pg_cW_type_is : forall c h t, pg_cW c -> pg_cW (fst (pg_src_type_is c h t)).
 Proof. intros c h t H. destruct (pg_type_is_fields c h t) as (A & B & C & _). eapply pg_cW_eq; eauto. Qed.
 
-Lemma pg_cW_head : forall h top c, pg_cW c -> (top = true -> c_tocopy c = []) -> pg_cW (fst (pg_reserve_head h top c)).
+Lemma pg_cW_head : forall h top c, pg_cW c -> (top = true -> pgc_tocopy c = []) -> pg_cW (fst (pg_reserve_head h top c)).
 Proof.
   intros h top c W Htop. unfold pg_reserve_head. destruct h as [| | |og| |]; try exact W.
-  destruct (pg_memN og (c_visiting c)); [exact W|].
-  cbn [c_omap c_src c_dst c_visiting c_tocopy c_err].
-  destruct (pg_omap_find (c_omap c) og) as [l|] eqn:Eo.
-  - set (c1 := mkPgCst (c_src c) (c_dst c) (c_omap c) (og :: c_visiting c) (c_tocopy c) (c_err c)).
+  destruct (pg_memN og (pgc_visiting c)); [exact W|].
+  cbn [pgc_omap pgc_src pgc_dst pgc_visiting pgc_tocopy pgc_err].
+  destruct (pg_omap_find (pgc_omap c) og) as [l|] eqn:Eo.
+  - set (c1 := mkPgCst (pgc_src c) (pgc_dst c) (pgc_omap c) (og :: pgc_visiting c) (pgc_tocopy c) (pgc_err c)).
     assert (W1 : pg_cW c1) by (eapply pg_cW_eq; [| | |exact W]; reflexivity).
     destruct top.
-    + pose proof (pg_cW_type_is c1 (PvRef og) k_Page W1) as W2.
-      destruct (pg_type_is_fields c1 (PvRef og) k_Page) as (F1 & F2 & F3 & _).
-      destruct (pg_src_type_is c1 (PvRef og) k_Page) as [c2 isp]. cbn [fst] in *.
-      cbn [andb]. destruct (isp && pg_is_null (c_dst c2) (PvRef l)); cbn [fst].
-      * destruct W2 as (A & B & C & D). unfold pg_cW. cbn [c_dst c_omap c_tocopy].
+    + pose proof (pg_cW_type_is c1 (PvRef og) pgk_Page W1) as W2.
+      destruct (pg_type_is_fields c1 (PvRef og) pgk_Page) as (F1 & F2 & F3 & _).
+      destruct (pg_src_type_is c1 (PvRef og) pgk_Page) as [c2 isp]. cbn [fst] in *.
+      cbn [andb]. destruct (isp && pg_is_null (pgc_dst c2) (PvRef l)); cbn [fst].
+      * destruct W2 as (A & B & C & D). unfold pg_cW. cbn [pgc_dst pgc_omap pgc_tocopy].
         split; [exact A|split; [exact B|split]].
-        -- intros x [<-|Hx]; [rewrite F2; cbn [c1 c_omap]; congruence | apply C, Hx].
-        -- rewrite F3. cbn [c1 c_tocopy]. rewrite (Htop eq_refl). constructor; [intros []|constructor].
+        -- intros x [<-|Hx]; [rewrite F2; cbn [c1 pgc_omap]; congruence | apply C, Hx].
+        -- rewrite F3. cbn [c1 pgc_tocopy]. rewrite (Htop eq_refl). constructor; [intros []|constructor].
       * eapply pg_cW_eq; [| | |exact W2]; reflexivity.
     + cbn [andb fst]. eapply pg_cW_eq; [| | |exact W1]; reflexivity.
-  - set (cell := if pg_is_stream (pd_store (c_src c)) (PvRef og) then PcStream [] [] 0 else PcObj PvNull).
-    assert ((if pg_is_stream (pd_store (c_src c)) (PvRef og) then pg_alloc (c_dst c) (PcStream [] [] 0) else pg_alloc (c_dst c) (PcObj PvNull))
-            = pg_alloc (c_dst c) cell) as -> by (unfold cell; destruct (pg_is_stream _ _); reflexivity).
-    set (ni := pg_next_id (c_dst c)).
-    change (pg_alloc (c_dst c) cell) with ((ni, cell) :: c_dst c, ni). cbv iota beta.
-    assert (Hfresh : pg_lookup (c_dst c) ni = None) by apply pg_next_id_fresh.
+  - set (cell := if pg_is_stream (pd_store (pgc_src c)) (PvRef og) then PcStream [] [] 0 else PcObj PvNull).
+    assert ((if pg_is_stream (pd_store (pgc_src c)) (PvRef og) then pg_alloc (pgc_dst c) (PcStream [] [] 0) else pg_alloc (pgc_dst c) (PcObj PvNull))
+            = pg_alloc (pgc_dst c) cell) as -> by (unfold cell; destruct (pg_is_stream _ _); reflexivity).
+    set (ni := pg_next_id (pgc_dst c)).
+    change (pg_alloc (pgc_dst c) cell) with ((ni, cell) :: pgc_dst c, ni). cbv iota beta.
+    assert (Hfresh : pg_lookup (pgc_dst c) ni = None) by apply pg_next_id_fresh.
     destruct W as (A & B & C & D).
-    assert (Hnot : ~ In og (c_tocopy c)) by (intros H; apply C in H; congruence).
+    assert (Hnot : ~ In og (pgc_tocopy c)) by (intros H; apply C in H; congruence).
     (* the state after the reservation, with or without og on to_copy *)
-    assert (Wgen : forall vis tc e src, (tc = c_tocopy c \/ tc = og :: c_tocopy c) ->
-              pg_cW (mkPgCst src ((ni, cell) :: c_dst c) ((og, ni) :: c_omap c) vis tc e)).
-    { intros vis tc e src Htc. unfold pg_cW. cbn [c_dst c_omap c_tocopy].
+    assert (Wgen : forall vis tc e src, (tc = pgc_tocopy c \/ tc = og :: pgc_tocopy c) ->
+              pg_cW (mkPgCst src ((ni, cell) :: pgc_dst c) ((og, ni) :: pgc_omap c) vis tc e)).
+    { intros vis tc e src Htc. unfold pg_cW. cbn [pgc_dst pgc_omap pgc_tocopy].
       split; [|split; [|split]].
       - intros x l H. rewrite pg_omap_find_cons in H. cbn [pg_lookup]. destruct (x =? og) eqn:E.
         + inversion H; subst. rewrite N.eqb_refl. discriminate.
@@ -327,14 +327,14 @@ Proof.
       - destruct Htc as [->| ->]; [exact D|constructor; assumption]. }
     destruct top.
     + cbn [negb andb fst]. apply Wgen. right. reflexivity.
-    + set (c1 := mkPgCst (c_src c) ((ni, cell) :: c_dst c) ((og, ni) :: c_omap c) (og :: c_visiting c) (c_tocopy c) (c_err c)).
+    + set (c1 := mkPgCst (pgc_src c) ((ni, cell) :: pgc_dst c) ((og, ni) :: pgc_omap c) (og :: pgc_visiting c) (pgc_tocopy c) (pgc_err c)).
       assert (W1 : pg_cW c1) by (apply Wgen; left; reflexivity).
-      pose proof (pg_cW_type_is c1 (PvRef og) k_Page W1) as W2.
-      destruct (pg_type_is_fields c1 (PvRef og) k_Page) as (F1 & F2 & F3 & _).
-      destruct (pg_src_type_is c1 (PvRef og) k_Page) as [c2 isp]. cbn [fst] in *.
+      pose proof (pg_cW_type_is c1 (PvRef og) pgk_Page W1) as W2.
+      destruct (pg_type_is_fields c1 (PvRef og) pgk_Page) as (F1 & F2 & F3 & _).
+      destruct (pg_src_type_is c1 (PvRef og) pgk_Page) as [c2 isp]. cbn [fst] in *.
       cbn [negb andb]. destruct isp; cbn [fst].
       * eapply pg_cW_eq; [| | |exact W2]; reflexivity.
-      * destruct c2 as [s2 d2 o2 v2 t2 e2]. cbn [c_dst c_omap c_tocopy c_src c_visiting c_err] in *. subst d2 o2 t2.
+      * destruct c2 as [s2 d2 o2 v2 t2 e2]. cbn [pgc_dst pgc_omap pgc_tocopy pgc_src pgc_visiting pgc_err] in *. subst d2 o2 t2.
         apply Wgen. right. reflexivity.
 Qed.
 
@@ -347,33 +347,33 @@ Qed.
 Lemma pg_cW_kids : forall rec h c, (forall x c, pg_cW c -> pg_cW (rec x c)) -> pg_cW c -> pg_cW (pg_reserve_kids rec h c).
 Proof.
   intros rec h c Hrec W. unfold pg_reserve_kids.
-  assert (Hd : forall d c0, pg_cW c0 -> pg_cW (fold_left (fun c1 (kv : pg_key * pg_val) => if pg_is_null (pd_store (c_src c1)) (snd kv) then c1 else rec (snd kv) c1) d c0)).
+  assert (Hd : forall d c0, pg_cW c0 -> pg_cW (fold_left (fun c1 (kv : pg_key * pg_val) => if pg_is_null (pd_store (pgc_src c1)) (snd kv) then c1 else rec (snd kv) c1) d c0)).
   { intros d c0. apply pg_cW_fold. intros c1 kv W1. destruct (pg_is_null _ _); [exact W1 | apply Hrec, W1]. }
   assert (Ha : forall l c0, pg_cW c0 -> pg_cW (fold_left (fun c1 x => rec x c1) l c0)).
   { intros l c0. apply pg_cW_fold. intros c1 x W1. apply Hrec, W1. }
   destruct h as [| | |og|l|d]; try exact W; [|apply Ha, W|apply Hd, W].
-  destruct (pg_lookup (pd_store (c_src c)) og) as [[v|d x k]|]; try exact W; [|apply Hd, W].
+  destruct (pg_lookup (pd_store (pgc_src c)) og) as [[v|d x k]|]; try exact W; [|apply Hd, W].
   destruct v; try exact W; [apply Ha, W|apply Hd, W].
 Qed.
 
 Local Transparent pg_reserve.
-Lemma pg_cW_reserve : forall fuel h top c, pg_cW c -> (top = true -> c_tocopy c = []) -> pg_cW (pg_reserve fuel h top c).
+Lemma pg_cW_reserve : forall fuel h top c, pg_cW c -> (top = true -> pgc_tocopy c = []) -> pg_cW (pg_reserve fuel h top c).
 Proof.
   induction fuel as [|f IH]; intros h top c W Htop; cbn [pg_reserve].
   - eapply pg_cW_eq; [| | |exact W]; reflexivity.
-  - destruct (c_err c); [exact W|].
-    pose proof (pg_cW_type_is c h k_Pages W) as W1.
-    destruct (pg_type_is_fields c h k_Pages) as (_ & _ & F3 & _).
-    destruct (pg_src_type_is c h k_Pages) as [c1 isp]. cbn [fst] in *.
-    destruct (c_err c1); [exact W1|]. destruct isp; [exact W1|].
-    assert (Htop1 : top = true -> c_tocopy c1 = []) by (intros H; rewrite F3; apply Htop, H).
+  - destruct (pgc_err c); [exact W|].
+    pose proof (pg_cW_type_is c h pgk_Pages W) as W1.
+    destruct (pg_type_is_fields c h pgk_Pages) as (_ & _ & F3 & _).
+    destruct (pg_src_type_is c h pgk_Pages) as [c1 isp]. cbn [fst] in *.
+    destruct (pgc_err c1); [exact W1|]. destruct isp; [exact W1|].
+    assert (Htop1 : top = true -> pgc_tocopy c1 = []) by (intros H; rewrite F3; apply Htop, H).
     pose proof (pg_cW_head h top c1 W1 Htop1) as W2.
     destruct (pg_reserve_head h top c1) as [c2 go]. cbn [fst] in W2.
-    destruct (c_err c2); [exact W2|]. destruct go; cbn [negb]; [|exact W2].
+    destruct (pgc_err c2); [exact W2|]. destruct go; cbn [negb]; [|exact W2].
     assert (Hrec : forall x c0, pg_cW c0 -> pg_cW (pg_reserve f x false c0)).
     { intros x c0 W0. apply IH; [exact W0|discriminate]. }
     pose proof (pg_cW_kids (fun x c0 => pg_reserve f x false c0) h c2 Hrec W2) as W3.
-    destruct (c_err (pg_reserve_kids (fun x c0 => pg_reserve f x false c0) h c2)); [exact W3|].
+    destruct (pgc_err (pg_reserve_kids (fun x c0 => pg_reserve f x false c0) h c2)); [exact W3|].
     unfold pg_reserve_done. destruct h; exact W3.
 Qed.
 Local Opaque pg_reserve.
@@ -441,31 +441,31 @@ Lemma copy_iso_partial_lemma : forall src dst fid,
   let '(src', dst', e, r) := pg_copied src dst fid in
   e = None ->
   (forall og og' l, pg_omap_find (pd_omap dst') og = Some l -> pg_omap_find (pd_omap dst') og' = Some l -> og = og') /\
-  (forall og l v, In og (c_tocopy c) -> pg_omap_find (pd_omap dst') og = Some l ->
+  (forall og l v, In og (pgc_tocopy c) -> pg_omap_find (pd_omap dst') og = Some l ->
      pg_lookup (pd_store src') og = Some (PcObj v) ->
      pg_lookup (pd_store dst') l = Some (PcObj (pg_rename (pd_store src') (pd_omap dst') v))).
 Proof.
   intros src dst fid [Wex Winj] c.
   assert (W : pg_cW c).
-  { apply pg_cW_reserve; [|reflexivity]. unfold pg_cW, pg_c0. cbn [c_dst c_omap c_tocopy].
+  { apply pg_cW_reserve; [|reflexivity]. unfold pg_cW, pg_c0. cbn [pgc_dst pgc_omap pgc_tocopy].
     split; [exact Wex|split; [exact Winj|split; [intros og []|constructor]]]. }
   destruct W as (A & B & C & D).
   unfold pg_copied. fold (pg_c0 src dst). fold (pg_cres src dst fid). fold c.
-  destruct (c_err c); [intros H; discriminate|].
-  destruct (fold_left (pg_replace_step (c_src c) (c_omap c)) (rev' (c_tocopy c)) (c_dst c, pd_reg dst, None)) as [[ds reg] e] eqn:Ef.
+  destruct (pgc_err c); [intros H; discriminate|].
+  destruct (fold_left (pg_replace_step (pgc_src c) (pgc_omap c)) (rev' (pgc_tocopy c)) (pgc_dst c, pd_reg dst, None)) as [[ds reg] e] eqn:Ef.
   destruct e as [x|].
   - intros H. discriminate.
-  - assert (Hres : forall l0 : nat, (forall og og' l, pg_omap_find (c_omap c) og = Some l -> pg_omap_find (c_omap c) og' = Some l -> og = og') /\
-       (forall og l v, In og (c_tocopy c) -> pg_omap_find (c_omap c) og = Some l -> pg_lookup (pd_store (c_src c)) og = Some (PcObj v) ->
-          pg_lookup ds l = Some (PcObj (pg_rename (pd_store (c_src c)) (c_omap c) v)))).
+  - assert (Hres : forall l0 : nat, (forall og og' l, pg_omap_find (pgc_omap c) og = Some l -> pg_omap_find (pgc_omap c) og' = Some l -> og = og') /\
+       (forall og l v, In og (pgc_tocopy c) -> pg_omap_find (pgc_omap c) og = Some l -> pg_lookup (pd_store (pgc_src c)) og = Some (PcObj v) ->
+          pg_lookup ds l = Some (PcObj (pg_rename (pd_store (pgc_src c)) (pgc_omap c) v)))).
     { intros _. split; [exact B|].
-      destruct (pg_replace_fold (c_src c) (c_omap c) (rev' (c_tocopy c)) (c_dst c) (pd_reg dst) ds reg) as [H1 _].
+      destruct (pg_replace_fold (pgc_src c) (pgc_omap c) (rev' (pgc_tocopy c)) (pgc_dst c) (pd_reg dst) ds reg) as [H1 _].
       - rewrite rev'_rev. apply NoDup_rev, D.
       - intros og H. rewrite rev'_rev in H. apply in_rev in H. apply C, H.
       - exact B.
       - exact Ef.
       - intros og l v Hin. apply H1. rewrite rev'_rev. apply in_rev. rewrite rev_involutive. exact Hin. }
-    destruct (pg_omap_find (c_omap c) fid); intros _; exact (Hres O).
+    destruct (pg_omap_find (pgc_omap c) fid); intros _; exact (Hres O).
 Qed.
 
 Lemma pg_replace_fold_some : forall src omap L st j,
@@ -485,17 +485,17 @@ Lemma copy_omap_wf_lemma : forall src dst fid,
 Proof.
   intros src dst fid [Wex Winj].
   assert (W : pg_cW (pg_cres src dst fid)).
-  { apply pg_cW_reserve; [|reflexivity]. unfold pg_cW, pg_c0. cbn [c_dst c_omap c_tocopy].
+  { apply pg_cW_reserve; [|reflexivity]. unfold pg_cW, pg_c0. cbn [pgc_dst pgc_omap pgc_tocopy].
     split; [exact Wex|split; [exact Winj|split; [intros og []|constructor]]]. }
   destruct W as (A & B & _ & _).
   unfold pg_copied. fold (pg_c0 src dst). fold (pg_cres src dst fid). set (c := pg_cres src dst fid) in *.
-  destruct (c_err c); [split; cbn; assumption|].
-  pose proof (pg_replace_fold_some (c_src c) (c_omap c) (rev' (c_tocopy c)) (c_dst c, pd_reg dst, None)) as Hs.
-  destruct (fold_left (pg_replace_step (c_src c) (c_omap c)) (rev' (c_tocopy c)) (c_dst c, pd_reg dst, None)) as [[ds reg] e].
+  destruct (pgc_err c); [split; cbn; assumption|].
+  pose proof (pg_replace_fold_some (pgc_src c) (pgc_omap c) (rev' (pgc_tocopy c)) (pgc_dst c, pd_reg dst, None)) as Hs.
+  destruct (fold_left (pg_replace_step (pgc_src c) (pgc_omap c)) (rev' (pgc_tocopy c)) (pgc_dst c, pd_reg dst, None)) as [[ds reg] e].
   cbn [fst] in Hs.
-  assert (pg_omap_wf (pd_with_reg (pd_with_omap (pd_with_store dst ds) (c_omap c)) reg)) as Hw.
+  assert (pg_omap_wf (pd_with_reg (pd_with_omap (pd_with_store dst ds) (pgc_omap c)) reg)) as Hw.
   { split; cbn; [|exact B]. intros og l H. apply Hs, (A og l H). }
-  destruct e; [exact Hw|]. destruct (pg_omap_find (c_omap c) fid); exact Hw.
+  destruct e; [exact Hw|]. destruct (pg_omap_find (pgc_omap c) fid); exact Hw.
 Qed.
 
 Lemma pg_omap_wf_init : forall s r, pg_omap_wf (pg_init_doc s r).
